@@ -3,11 +3,14 @@ package main
 // Layer 2 of C04: real handshakes between the two real endpoints over an in-memory transport.
 // Everything both sides put on the wire is captured; the master secret is read from each
 // side's session-cache entry; for ECC suites the pre-master secret is recovered by opening the
-// ClientKeyExchange with the server's encryption private key (real SM2, outside the library).
+// ClientKeyExchange with the server's encryption private key (real SM2, outside the library); for
+// ECDHE suites it is the agreed value computed by the driver's own SM2 key-agreement module, which
+// the public Config carries as the encryption certificate's PrivateKey (ka.go) - including
+// handshakes whose agreed value starts with zero bytes.
 // The Lean oracle then re-derives master secret, key block and both Finished values and opens
 // every protected record of each direction under that direction's key.
 //
-// case    : op=hs stack suite auth resume nc ns pmtu seed   (configuration, re-executable)
+// case    : op=hs stack suite auth resume nc ns pmtu seed rshort msz ka   (configuration, re-executable)
 //           master smaster pre c2s s2c sentc sents          (captured; replaced on replay)
 // observed: ok resumed cfin sfin  |  ok=0 err=...
 
@@ -266,6 +269,7 @@ type hsCfg struct {
 	seed           uint64
 	rshort         int // > 0: Config.Rand of both sides returns at most rshort bytes per Read (and is recorded)
 	msz            int // > 0: cap on the size of one application message
+	ka             string // ECDHE: who computes the SM2 key agreement (ka.go); "" = lib
 }
 
 func isECDHE(id uint16) bool { return id == 0xe011 || id == 0xe051 }
@@ -287,6 +291,14 @@ func runTLCP(cfg hsCfg) (cp capture) {
 		ccfg.Certificates = []tlcp.Certificate{pair.TCert(s.CliSig), pair.TCert(s.CliEnc)}
 		scfg.ClientAuth = tlcp.RequireAndVerifyClientCert
 		scfg.ClientCAs = s.Root.Pool
+	}
+	// ECDHE: the encryption key of a side may be a key-agreement module of the driver (ka.go)
+	kc, ks := kaSetup(cfg.ka)
+	if kc != nil && len(ccfg.Certificates) == 2 {
+		ccfg.Certificates[1].PrivateKey = kc
+	}
+	if ks != nil {
+		scfg.Certificates[1].PrivateKey = ks
 	}
 	if cfg.resume { // prime both caches with a full handshake first
 		c, sv, ce, se, r := pair.TLCP(ccfg, scfg, nil)
@@ -330,6 +342,13 @@ func runTLCP(cfg hsCfg) (cp capture) {
 			}
 		}
 	}
+	if isECDHE(cfg.suite) && !cp.resumed {
+		var clash bool
+		if cp.pre, clash = kaAgreed(kc, ks); clash {
+			cp.err = "driver:the two key-agreement modules computed different values"
+			return
+		}
+	}
 	cp.ok = true
 	return
 }
@@ -354,6 +373,14 @@ func runDTLCP(cfg hsCfg) (cp capture) {
 		ccfg.Certificates = []dtlcp.Certificate{pair.DCert(s.CliSig), pair.DCert(s.CliEnc)}
 		scfg.ClientAuth = dtlcp.RequireAndVerifyClientCert
 		scfg.ClientCAs = s.Root.Pool
+	}
+	kc, ks := kaSetup(cfg.ka)
+	if kc != nil && len(ccfg.Certificates) == 2 {
+		ccfg.Certificates[1].PrivateKey = kc
+	}
+	if ks != nil {
+		scfg.Certificates = append([]dtlcp.Certificate(nil), scfg.Certificates...)
+		scfg.Certificates[1].PrivateKey = ks
 	}
 	if cfg.resume {
 		c, sv, ce, se, r := pair.DTLCP(ccfg, scfg, nil)
@@ -406,6 +433,13 @@ func runDTLCP(cfg hsCfg) (cp capture) {
 			cp.pre = openCKE(b)
 		}
 	}
+	if isECDHE(cfg.suite) && !cp.resumed {
+		var clash bool
+		if cp.pre, clash = kaAgreed(kc, ks); clash {
+			cp.err = "driver:the two key-agreement modules computed different values"
+			return
+		}
+	}
 	cp.ok = true
 	return
 }
@@ -418,8 +452,12 @@ func b01(b bool) int {
 }
 
 func hsDesc(c hsCfg) string {
-	return fmt.Sprintf("op=hs stack=%s suite=%d auth=%d resume=%d nc=%d ns=%d pmtu=%d seed=%d rshort=%d msz=%d",
-		c.stack, c.suite, b01(c.auth), b01(c.resume), c.nc, c.ns, c.pmtu, c.seed, c.rshort, c.msz)
+	ka := c.ka
+	if ka == "" || !isECDHE(c.suite) {
+		ka = "lib"
+	}
+	return fmt.Sprintf("op=hs stack=%s suite=%d auth=%d resume=%d nc=%d ns=%d pmtu=%d seed=%d rshort=%d msz=%d ka=%s",
+		c.stack, c.suite, b01(c.auth), b01(c.resume), c.nc, c.ns, c.pmtu, c.seed, c.rshort, c.msz, ka)
 }
 
 // executeHS runs the configuration part of desc; it returns the captured tokens (appended to
@@ -435,6 +473,9 @@ func executeHSFull(desc string) (captured, obs string) {
 	cfg.nc, cfg.ns, cfg.pmtu = int(kvU64(desc, "nc")), int(kvU64(desc, "ns")), int(kvU64(desc, "pmtu"))
 	cfg.seed = kvU64(desc, "seed")
 	cfg.rshort, cfg.msz = int(kvU64(desc, "rshort")), int(kvU64(desc, "msz"))
+	if cfg.ka, _ = hx.KV(desc, "ka"); !isECDHE(cfg.suite) {
+		cfg.ka = ""
+	}
 	var cp capture
 	if p := hx.Guard(func() {
 		if cfg.stack == "tlcp" {
@@ -485,6 +526,41 @@ func hsCases(o hx.Opts, emit func(string)) {
 			}
 		}
 	}
+	// ECDHE: agreed values that start with zero bytes. The standard takes the 48 bytes of the SM2
+	// key agreement as the pre-master secret, as they are; about one real handshake in 256 has a
+	// leading zero byte. `lead`: a real one (the client's module draws ephemeral keys until the
+	// agreed value starts with 00, the server runs the library's agreement); `pin:`: both sides'
+	// modules hand back the given value (k leading zero bytes for several k, all-zero, zero tail,
+	// and a control without zeros).
+	for rep := 0; rep < reps; rep++ {
+		for _, st := range []string{"tlcp", "dtlcp"} {
+			for _, id := range []uint16{0xe011, 0xe051} {
+				base := hsCfg{stack: st, suite: id, auth: true, msz: 64}
+				mk := func(ka string) {
+					c := base
+					c.nc, c.ns, c.seed, c.ka = 1+r.Intn(2), 1+r.Intn(2), r.U64()>>1, ka
+					emit(hsDesc(c))
+				}
+				mk("lead")
+				pin := func(zeros int, tailZeros int) string {
+					z := r.Bytes(48)
+					for i := range z {
+						if z[i] == 0 {
+							z[i] = 1
+						}
+						if i < zeros || i >= 48-tailZeros {
+							z[i] = 0
+						}
+					}
+					return "pin:" + hx.Hex(z)
+				}
+				mk(pin(1, 0))
+				mk(pin(2+r.Intn(6), 0))
+				mk(pin(hx.Pick(r, []int{16, 32, 47, 48}), 0))
+				mk(pin(0, 1+r.Intn(8)))
+			}
+		}
+	}
 	for rep := 0; rep < reps; rep++ {
 		for _, st := range []string{"tlcp", "dtlcp"} {
 			for _, id := range suites {
@@ -498,6 +574,12 @@ func hsCases(o hx.Opts, emit func(string)) {
 							c.pmtu = hx.Pick(r, []int{0, 0, 576, 1400, 9000})
 						}
 						c.rshort = hx.Pick(r, []int{0, 0, 1, 3, 16})
+						if isECDHE(id) {
+							// who computes the SM2 key agreement: the library on both sides (the agreed
+							// value is then not observable), or a module of the driver on one / both
+							// sides, which records the value for the oracle
+							c.ka = hx.Pick(r, []string{"lib", "cli", "srv", "both"})
+						}
 						emit(hsDesc(c))
 					}
 				}
